@@ -242,6 +242,10 @@ def gen_cases(ctx: Check) -> dict[str, list[dict]]:
         c["quiet"] = False
         mal.append(c)
     streams["malformed"] = mal
+    ov = [R.gen_overlap(rng) for _ in range(ctx.n(150, 3000))]
+    for c in ov:
+        c["quiet"] = not any(op[0] == "errapi" for op in c["ops"])
+    streams["pause-hold-overlap"] = ov
     return streams
 
 
@@ -282,7 +286,10 @@ def run(ctx: Check) -> int:
                 "Hold, after an early Unpause; random: adaptive sessions (mostly commands valid in the current "
                 "state, generated methods with blocks/watches and timed commands, varied increments) plus templated "
                 "'completed Restart ... Stop, ticks, Start with/without a tick' schedules; malformed: "
-                "unknown / wrong-case names, bad arguments, injected errors. Non-trivial = a run was started.")
+                "unknown / wrong-case names, bad arguments, injected errors; pause-hold-overlap: Pause (operator or "
+                "error) and Hold overlapping in either order with either one ending first, incl. a timed method "
+                "Hold / Pause whose duration runs out while the other kind of stop arrived during it. "
+                "Non-trivial = a run was started.")
     all_mout = []
     all_cases = []
     for name, cases in streams.items():
